@@ -111,6 +111,7 @@ class EvalSeams:
         self.site_counts: dict = {}
         self.fired: list = []
         self.escaped = None
+        self.injected = None  # the exception object a seam fault raised (model code raising it, outside asteval)
         self.line_count = 0
         self.line_total = 0
         self.line_site = None
@@ -257,7 +258,8 @@ class EvalSeams:
     # -- fault delivery ------------------------------------------------------
     def _fire(self, f, site):
         self.fired.append({"kind": f["kind"], "site": site, "eval": self.eval_no, "exc": f["exc"]})
-        raise make_exc(f["exc"], f"eval {self.eval_no} site {site}")
+        self.injected = make_exc(f["exc"], f"eval {self.eval_no} site {site}")
+        raise self.injected
 
     def _site(self, site):
         if not self.in_eval:
